@@ -16,6 +16,10 @@ def inc1000(x):
     return x + 1000
 
 
+class JobFailed(Exception):
+    pass
+
+
 class T:
     """A built template."""
 
@@ -185,6 +189,8 @@ def allowed_for(shard):
         a.append(3)
     if shard.get("timers", False):
         a.append(4)
+    if shard.get("fail", False):
+        a.append(5)
     return tuple(sorted(a))
 
 
@@ -233,8 +239,20 @@ def _run(shard, cs, with_ref, nmd, after_step, r):
         def step_hook(n):
             if after_step is not None:
                 after_step(r, n)
+        r.failed = []
+
+        def extra(c):
+            if c != 5:
+                return False
+            p = world.pending()
+            if not p or r.failed:
+                return False           # at most one failure per run
+            r.failed.append(p[0].x)
+            world.complete(p[0], exc=JobFailed("boom"))
+            return True
         try:
-            run_schedule(world, cs, r.producers, after_step=step_hook, allowed=allowed_for(shard))
+            run_schedule(world, cs, r.producers, extra=extra, after_step=step_hook,
+                         allowed=allowed_for(shard))
         except Pruned:
             r.pruned = True
             return r
